@@ -75,7 +75,7 @@ def build(payload, fill, talker='AI', typ='VDM', channel='A', seq=None, cuts=(),
             witness['seq'] = seq
         s = s + suffix
         str_here = as_str[i - 1] if isinstance(as_str, list) else as_str
-        out.append(s.decode('ascii') if str_here else s)
+        out.append(s.decode('utf-8') if str_here else s)
     if order is not None:
         out = [out[j] for j in order]
     return out
@@ -125,6 +125,9 @@ def variations(rng, payload, fill, budget, exhaustive_cuts):
         yield ('suffix+str', suf.decode()), dict(suffix=suf, as_str=True)
     for tag in ('s:2573535,c:1671533231', 'g:1-1-77', 'c:1'):
         yield ('tagblock', tag), dict(tag=tag)
+    for tag in ('s:G\u00f6teborg,c:1671533231', 't:\u20ac \u6e2f'):          # free text in a tag block is not confined to ASCII
+        yield ('tagblock-non-ascii', tag), dict(tag=tag)
+        yield ('tagblock-non-ascii+str', tag), dict(tag=tag, as_str=True)
     yield ('bad-checksum',), dict(bad_checksum_on=0)
     # strict checksum mode must not matter either when every checksum is right -- in particular the legitimate checksum 00
     # (and one-digit-significant ones): search the carrier details for sentences whose body XORs to 0x00 / below 0x10
